@@ -37,40 +37,33 @@ Definition os_date_t (to_civil : Z -> civil) (t : Z) : dtable :=
     (FWday, DNum (c_wday c + 1)); (FYday, DNum (c_yday c)); (FIsdst, DBool false) ].
 
 (* ---------- impl: getIntField ---------- *)
-Fixpoint dropzeros (s : bytes) : bytes :=
-  match s with c :: r => if c =? 48 then dropzeros r else s | [] => [] end.
-Fixpoint dropspaces (s : bytes) : bytes :=
-  match s with c :: r => if c =? 32 then dropspaces r else s | [] => [] end.
-
 (* int(num) of the float parseNumber returns: exact when the numeral is an integer; for a numeral
    with a negative exponent the truncation of the exact value (generators use integers only) *)
 Definition int_of_exact (m e : Z) : Z := if 0 <=? e then m * 10 ^ e else Z.quot m (10 ^ (- e)).
 
-Definition get_int_field (t : dtable) (k : fname) (v : Z) : Z :=
+(* a number is taken as it is, a string is read by parseNumber (the reader tonumber and arithmetic
+   use); anything else, or a string that is not a numeral, gives the default v; a negative default
+   means the field is required: None = the error "field '...' missing in date table" *)
+Definition get_int_field (t : dtable) (k : fname) (v : Z) : option Z :=
+  let dflt := if v <? 0 then None else Some v in
   match dget t k with
-  | Some (DNum z) => z
+  | Some (DNum z) => Some z
   | Some (DStr s) =>
-    let slv := dropspaces s in
-    let has0 := match slv with c :: _ => c =? 48 | [] => false end in
-    let has0x := match slv with c :: c2 :: _ => (c =? 48) && is_x c2 | _ => false end in
-    let slv2 := if has0 && negb has0x then dropzeros slv else slv in
-    if has0 && negb has0x && (match slv2 with [] => true | _ => false end) then 0 else
-    match parse_exact slv2 with
-    | Some (m, e) => int_of_exact m e
-    | None => v
+    match parse_exact s with
+    | Some (m, e) => Some (int_of_exact m e)
+    | None => dflt
     end
-  | _ => v
+  | _ => dflt
   end.
 
 (* ---------- impl: osTime on a table ---------- *)
-Definition os_time (of_civil : Z -> Z -> Z -> Z -> Z -> Z -> Z) (t : dtable) : Z :=
-  let sec := get_int_field t FSec 0 in
-  let min := get_int_field t FMin 0 in
-  let hour := get_int_field t FHour 12 in
-  let day := get_int_field t FDay (-1) in
-  let month := get_int_field t FMonth (-1) in
-  let year := get_int_field t FYear (-1) in
-  of_civil year month day hour min sec.
+Definition os_time (of_civil : Z -> Z -> Z -> Z -> Z -> Z -> Z) (t : dtable) : option Z :=
+  match get_int_field t FSec 0, get_int_field t FMin 0, get_int_field t FHour 12,
+        get_int_field t FDay (-1), get_int_field t FMonth (-1), get_int_field t FYear (-1) with
+  | Some sec, Some min, Some hour, Some day, Some month, Some year =>
+    Some (of_civil year month day hour min sec)
+  | _, _, _, _, _, _ => None
+  end.
 
 (* ---------- concrete calendar (proleptic Gregorian, UTC) ---------- *)
 Definition days_from_civil (y m d : Z) : Z :=
@@ -136,6 +129,8 @@ Definition c_conv (d : Z) (c : civil) : option bytes :=
   else if d =? 112 then Some (if c_hour c <? 12 then [65; 77] else [80; 77])   (* %p *)
   else if d =? 80 then Some (if c_hour c <? 12 then [97; 109] else [112; 109]) (* %P *)
   else if d =? 83 then Some (pad2 (c_sec c))                                   (* %S *)
+  else if d =? 85 then Some (pad2 ((c_yday c - 1 + 7 - c_wday c) / 7))         (* %U: weeks begin on Sunday *)
+  else if d =? 87 then Some (pad2 ((c_yday c - 1 + 7 - (c_wday c + 6) mod 7) / 7)) (* %W: on Monday *)
   else if d =? 119 then Some [48 + c_wday c]                                   (* %w *)
   else if d =? 120 then Some (pad2 (c_month c) ++ [47] ++ pad2 (c_day c) ++ [47] ++ pad2 (c_year c mod 100)) (* %x *)
   else if d =? 88 then Some hms                                                (* %X *)
